@@ -73,43 +73,49 @@ class Ev:
 class St:
     """Abstract state on one path.  Copy-on-write: env/known dicts are never mutated in place."""
 
-    __slots__ = ("env", "events", "known", "frames", "exc")
+    __slots__ = ("env", "events", "known", "frames", "exc", "heap")
 
-    def __init__(self, env, events, known, frames, exc=None):
+    def __init__(self, env, events, known, frames, exc=None, heap=None):
         self.env = env
         self.events = events
         self.known = known
         self.frames = frames  # tuple of FuncInfo, innermost last
         self.exc = exc  # exception being handled (term, cls) inside a handler
+        self.heap = heap or {}  # fields of objects constructed on this path: ('$new:C@L', attr) -> term
 
     def bind(self, name: str, term: ast.AST) -> "St":
         env = dict(self.env)
         env[name] = term
         # a re-bound local invalidates memoised conditions that mention it only through
         # substitution, which already changed the term - nothing else to do.
-        return St(env, self.events, self.known, self.frames, self.exc)
+        return St(env, self.events, self.known, self.frames, self.exc, self.heap)
 
     def emit(self, ev: Ev) -> "St":
         ev.idx = len(self.events)
         ev.depth = len(self.frames) - 1
-        return St(self.env, self.events + (ev,), self.known, self.frames, self.exc)
+        return St(self.env, self.events + (ev,), self.known, self.frames, self.exc, self.heap)
 
     def know(self, key: str, val: bool) -> "St":
         known = dict(self.known)
         known[key] = val
-        return St(self.env, self.events, known, self.frames, self.exc)
+        return St(self.env, self.events, known, self.frames, self.exc, self.heap)
 
     def forget(self, pred) -> "St":
         known = {k: v for k, v in self.known.items() if not pred(k)}
         if len(known) == len(self.known):
             return self
-        return St(self.env, self.events, known, self.frames, self.exc)
+        return St(self.env, self.events, known, self.frames, self.exc, self.heap)
 
     def with_env(self, env, frames) -> "St":
-        return St(env, self.events, self.known, frames, self.exc)
+        return St(env, self.events, self.known, frames, self.exc, self.heap)
+
+    def put_field(self, obj: str, attr: str, v) -> "St":
+        heap = dict(self.heap)
+        heap[(obj, attr)] = v
+        return St(self.env, self.events, self.known, self.frames, self.exc, heap)
 
     def with_exc(self, exc) -> "St":
-        return St(self.env, self.events, self.known, self.frames, exc)
+        return St(self.env, self.events, self.known, self.frames, exc, self.heap)
 
     @property
     def fn(self) -> FuncInfo:
@@ -489,6 +495,8 @@ class Enumerator:
     s_AsyncFor = s_For
 
     def s_With(self, s, st):
+        """`with X [as y]: body`  ==  y = X.__enter__(); try: body; finally: X.__exit__(...)  (exceptions are not
+        suppressed unless __exit__ is known to; package context managers are inlined like any new helper)."""
         def go(items, st1):
             if not items:
                 return self.block(s.body, st1)
@@ -496,10 +504,37 @@ class Enumerator:
 
             def k(st2, v):
                 st2 = st2.emit(Ev("with", v, s, st2.fn))
-                if item.optional_vars is not None:
-                    ph = N(f"$with{len(st2.events)}")
-                    return self.store(item.optional_vars, ph, st2, s, lambda st3: go(items[1:], st3))
-                return go(items[1:], st2)
+                tmp = f"__with{len(st2.events)}"
+                st2 = St({**st2.env, tmp: v}, st2.events, st2.known, st2.frames, st2.exc, st2.heap)
+                enter = ast.Call(func=ast.Attribute(value=ast.Name(id=tmp, ctx=ast.Load()), attr="__enter__", ctx=ast.Load()), args=[], keywords=[])
+                exit_ = ast.Call(func=ast.Attribute(value=ast.Name(id=tmp, ctx=ast.Load()), attr="__exit__", ctx=ast.Load()),
+                                 args=[ast.Constant(value=None)] * 3, keywords=[])
+                ast.copy_location(enter, s)
+                ast.copy_location(exit_, s)
+                ast.fix_missing_locations(enter)
+                ast.fix_missing_locations(exit_)
+
+                def after_enter(st3, ev_):
+                    def body(st4):
+                        self._try_depth += 1
+                        try:
+                            res = go(items[1:], st4)
+                        finally:
+                            self._try_depth -= 1
+                        out = []
+                        for st5, oc in res:
+                            st5 = st5.emit(Ev("finally", None, s, st5.fn, {"pending": oc[0], "with": True}))
+                            # restore the temp binding (an inner frame may have replaced env)
+                            st5 = St({**st5.env, tmp: v}, st5.events, st5.known, st5.frames, st5.exc, st5.heap)
+                            for st6, oc6 in self.ev(exit_, st5, lambda st7, _x: [(st7, FALL)]):
+                                out.append((st6, oc if oc6 is FALL else oc6))
+                        return out
+
+                    if item.optional_vars is not None:
+                        return self.store(item.optional_vars, ev_, st3, s, body)
+                    return body(st3)
+
+                return self.ev(enter, st2, after_enter)
 
             return self.ev(item.context_expr, st1, k)
 
@@ -624,6 +659,8 @@ class Enumerator:
                 t = ast.Attribute(value=base, attr=target.attr, ctx=ast.Load())
                 st3 = st2.emit(Ev("store", t, node, st2.fn, {"value": v, "attr": target.attr}))
                 st3 = st3.forget(lambda key, a=target.attr: f"attr='{a}'" in key)
+                if isinstance(base, ast.Name) and base.id.startswith("$new:"):
+                    st3 = st3.put_field(base.id, target.attr, v)
                 return k(st3)
 
             return self.ev(target.value, st, ka)
@@ -684,7 +721,7 @@ class Enumerator:
                 continue
             break
         key = key_of(t)
-        memoizable = memo and not contains_call(t) and (self.memo_self or self._self_stable(t))
+        memoizable = (memo and not contains_call(t) and (self.memo_self or self._self_stable(t))) or _placeholder_only(t)
         if memoizable and key in st.known:
             b = st.known[key]
             return [(st, (not b) if neg else b)]
@@ -750,6 +787,8 @@ class Enumerator:
 
     def e_Attribute(self, n, st, k):
         def ka(st2, v):
+            if isinstance(v, ast.Name) and v.id.startswith("$new:") and (v.id, n.attr) in st2.heap:
+                return k(st2, st2.heap[(v.id, n.attr)])  # field of an object built on this path
             t = ast.Attribute(value=v, attr=n.attr, ctx=ast.Load())
             getter = self.r.property_getter(t, st2) if self.r is not None else None
             if getter is None:
@@ -968,9 +1007,11 @@ class Enumerator:
     def _inline_target(self, callees, st: St, node) -> Optional[FuncInfo]:
         if self.inline_pred is None or callees is None:
             return None
-        if callees.how != "typed" or len(callees.targets) != 1 or callees.tags:
+        if callees.how != "typed" or len(callees.targets) != 1 or any(not t.startswith("ctor:") for t in callees.tags):
             return None
         callee = callees.targets[0]
+        if callees.tags and callee.name != "__init__":
+            return None
         depth = len(st.frames)
         if depth > self.max_depth or callee in st.frames:
             return None
@@ -991,6 +1032,12 @@ class Enumerator:
         out = []
         for st2, oc in self.block(callee.node.body, st_in):
             st_back = st2.with_env(caller_env, caller_frames)
+            is_ctor = callee.name == "__init__" and isinstance(call.func, ast.Name) and isinstance(env.get("self"), ast.Name) \
+                and env["self"].id.startswith("$new:")
+            if is_ctor and (oc is FALL or oc[0] == "return"):
+                st_back = st_back.emit(Ev("leave", env["self"], call, st.fn, {"callee": callee}))
+                out.extend(k(st_back, env["self"]))
+                continue
             if oc is FALL:
                 st_back = st_back.emit(Ev("leave", None, call, st.fn, {"callee": callee}))
                 out.extend(k(st_back, ast.Constant(value=None)))
@@ -1065,6 +1112,22 @@ class _Subst(ast.NodeTransformer):
         if isinstance(node.ctx, ast.Load) and node.id in self.env:
             return self.env[node.id]
         return node
+
+
+def _placeholder_only(t: ast.AST) -> bool:
+    """The term is built from call/await results and constants only (no reads of mutable state): its value is fixed."""
+    names = [n for n in ast.walk(t) if isinstance(n, ast.Name)]
+    if not names:
+        return False
+    for n in ast.walk(t):
+        if isinstance(n, ast.Name):
+            if not (n.id.startswith("$c") or n.id.startswith("$w")):
+                return False
+        elif isinstance(n, ast.Attribute):
+            return False
+        elif isinstance(n, (ast.Call, ast.Await, ast.Lambda, ast.ListComp, ast.GeneratorExp, ast.DictComp, ast.SetComp)):
+            return False
+    return True
 
 
 def _own_nodes_of(fnode):
